@@ -375,6 +375,8 @@ class Facts:
         if os.environ.get("VERIF_NO_INLINE") != "1":
             import inline
             inline.normalize(self)
+        import names
+        names.set_current(self)
 
     STD_CONSTS = {"core::num::<impl u8>::MAX": 0xff, "core::num::<impl u16>::MAX": 0xffff, "core::num::<impl u32>::MAX": 0xffffffff,
                   "core::num::<impl u64>::MAX": 0xffffffffffffffff, "core::num::<impl usize>::MAX": 0xffffffffffffffff,
